@@ -7,36 +7,36 @@ LEVEL_NOTE = ("Trusted base: go/packages + go/types + go/ssa (x/tools v0.29.0) a
   "library functions outside the module are modelled by small reviewed tables. No code of /repo is executed.")
 
 CHECKS = {
- "C01": dict(tech="static analysis: sequence-confinement dataflow (SEQ) + resolved-value dataflow for reflect accessors (NF) on go/ssa",
-   text="Structural necessary conditions of the path law, decided for every program and input: no internal *sequence can be nested into or escape as a value, and every reflect accessor in the path machinery gets a resolved value. Behavioural content (order, flattening, singleton collapse) is not decided; level 'other' because this is a sound effect/typestate analysis of named clauses, not a behavioural proof.",
-   ref="DESIGN.md §3 SEQ, NF; §4 C01"),
- "C02": dict(tech="static analysis: resolved-value dataflow for reflect accessors (NF) on go/ssa",
-   text="The NF clause of the predicate machinery for all programs/inputs: filter results and array items are resolved before Len/Index. Index arithmetic and truth casting are value-level and not decided.",
-   ref="DESIGN.md §3 NF; §4 C02"),
- "C03": dict(tech="static analysis: finiteness bit-set dataflow with dominance guards (FIN), dominating-guard check (GUARD), CFG exclusivity (LAZY), enum/registration exhaustiveness (TAB)",
-   text="Four clauses of the operator contract visible in the code on every path: arithmetic results are finiteness-checked before becoming values, the range size limit (10,000,000) dominates the allocation, ?: evaluates exactly one branch, operator enums are dispatched exhaustively. The operator x kind x kind result table is not decided.",
-   ref="DESIGN.md §3 FIN, GUARD, TAB; §4 C03"),
- "C04": dict(tech="static analysis: extraction of the Pratt parser's parameter set (AST + go/types + SSA patterns) compared with the precedence relation of the property",
-   text="For the language's token set the extracted parameters determine the parse of every operator chain, so the comparison covers all ordered operator pairs/triples at once. Representation changes of the tables make the extraction fail ('anchor lost') rather than pass. The optimize-time re-association of paths/predicates/groups is not decided.",
-   ref="DESIGN.md §3 PRATT; §4 C04"),
+ "C01": dict(tech="static analysis: sequence-confinement dataflow (SEQ) + resolved-value dataflow for reflect accessors (NF) on go/ssa + write-target provenance (W) restricted to the path machinery",
+   text="Structural necessary conditions of the path law, decided for every program and input: no internal *sequence can be nested into or escape as a value, and every reflect accessor in the path machinery gets a resolved value. Behavioural content (order, flattening, singleton collapse) is not decided; level 'other' because this is a sound effect/typestate analysis of named clauses, not a behavioural proof. A purity clause (write-target provenance W restricted to the property's functions) excludes caches and other state between calls.",
+   ref="DESIGN.md §3 SEQ, NF; §4 C01 (W)"),
+ "C02": dict(tech="static analysis: resolved-value dataflow for reflect accessors (NF) on go/ssa + write-target provenance (W) restricted to the predicate machinery",
+   text="The NF clause of the predicate machinery for all programs/inputs: filter results and array items are resolved before Len/Index. Index arithmetic and truth casting are value-level and not decided. A purity clause (write-target provenance W restricted to the property's functions) excludes caches and other state between calls.",
+   ref="DESIGN.md §3 NF; §4 C02 (W)"),
+ "C03": dict(tech="static analysis: finiteness bit-set dataflow with dominance guards (FIN), dominating-guard check (GUARD), CFG exclusivity (LAZY), enum/registration exhaustiveness (TAB), operator-table extraction from the SSA of the operator evaluators compared with the operators' meaning (OPTAB), W restricted to the operator evaluators",
+   text="Four clauses of the operator contract visible in the code on every path: arithmetic results are finiteness-checked before becoming values, the range size limit (10,000,000) dominates the allocation, ?: evaluates exactly one branch, operator enums are dispatched exhaustively. The operator x kind x kind result table is not decided. OPTAB: every operator's case computes the operation of the property with the operands in order (+ - * / % = != < <= > >= in and or &), lt is strict, no arithmetic outside the cases. A purity clause (write-target provenance W restricted to the property's functions) excludes caches and other state between calls.",
+   ref="DESIGN.md §3 FIN, GUARD, TAB; §4 C03, OPTAB"),
+ "C04": dict(tech="static analysis: extraction of the Pratt parser's parameter set (AST + go/types + SSA patterns) compared with the precedence relation of the property + write-target provenance (W) under the Compile/Parse roots",
+   text="For the language's token set the extracted parameters determine the parse of every operator chain, so the comparison covers all ordered operator pairs/triples at once. Representation changes of the tables make the extraction fail ('anchor lost') rather than pass. The optimize-time re-association of paths/predicates/groups is not decided. The parse is a function of the text (W under Compile: no state between parses).",
+   ref="DESIGN.md §3 PRATT; §4 C04 (W)"),
  "C10": dict(tech="static analysis: SEQ confinement, FIN over every float-returning built-in and every float boxed under Eval, MARSHAL structural rules",
    text="No internal type or non-finite number can become (part of) a result through the enumerated sinks; callables marshal as \"\"; built-in result types are JSON-closed; ErrUndefined has one producer under the !IsValid edge; EvalBytes is decode->Eval->encode with both errors checked. Deep JSON closure of arbitrary nested values is not decided.",
    ref="DESIGN.md §3 SEQ, FIN, MARSHAL; §4 C10"),
- "C11": dict(tech="static analysis: table comparison (escape table vs RFC 8259, keyword table, array-literal case) on AST + go/types",
-   text="Thin: three necessary conditions of 'JSON texts denote themselves' that are tables in the code. \\u decoding, surrogates and number scanning are not decided.",
-   ref="DESIGN.md §3 TAB; §4 C11"),
- "C12": dict(tech="static analysis: scope-structure rules on SSA (SCOPE: fresh child frame per block/call, lexical parent, capture of definition-site env/context, parent link used only by lookup) + W restricted to callable and environment state",
+ "C11": dict(tech="static analysis: table comparison (escape table vs RFC 8259, keyword table, array-literal case) on AST + go/types; value-flow identity rule for literals on go/ssa (LIT); W under Compile and on the literal evaluators",
+   text="Necessary conditions of 'JSON texts denote themselves' that are visible in the code: the escape and keyword tables; number literals are strconv.ParseFloat(text, 64) with the error tested, string literals unescape(text) with ok tested, negated literals fold by arithmetic negation (sign of zero kept), and literal nodes evaluate to exactly their stored value on every path; no cache or state in between. \\u decoding, surrogates and number scanning are not decided.",
+   ref="DESIGN.md §3 TAB; §4 C11, LIT"),
+ "C12": dict(tech="static analysis: scope-structure rules on SSA (SCOPE: fresh child frame per block/call, lexical parent, capture of definition-site env/context, parent link used only by lookup) + W restricted to callable.go, env.go and the evaluator functions that build or apply function values",
    text="The structural part of lexical scoping for all programs: frames, parents and captures are wired lexically, bind cannot reach an outer frame, and no per-call datum lives in a shared callable (the context-defaulting defect). Signature matching, placeholder order and chain semantics are value-level and not decided.",
    ref="DESIGN.md §3 SCOPE, W; §4 C12"),
  "C13": dict(tech="static analysis: who-may-call rule for sort functions under Eval, comparator strictness and slice freshness on go/ssa, merge-step shape (MERGE)",
    text="Stability-relevant structure for all inputs: only stable sorts, strict comparators, fresh slices, and a merge step that prefers the left run on ties. Sampled tests cannot see an unstable sort below 12 items. Ordering/permutation/error clauses as values are not decided.",
    ref="DESIGN.md §3 SORT; §4 C13"),
- "C15": dict(tech="static analysis: interface-keyed map / printed-identity rule (HASH) and FIN on the aggregates",
-   text="Thin: $distinct's identity test cannot panic on unhashable members nor conflate values by their printed form, and the aggregates cannot return a non-finite number. The definitional clauses of the other functions are value-level and not decided.",
-   ref="DESIGN.md §3 HASH, FIN; §4 C15"),
- "C16": dict(tech="static analysis: unit typing (rune-count vs byte-offset) of integers in the position arithmetic (UNIT) and codec pairing (CODEC)",
-   text="Code-point vs byte indexing cannot be mixed in Substring/Pad/positionOfNthRune; encoder/decoder pairs use the same codec; $length is a code-point count. The string laws as equalities are not decided.",
-   ref="DESIGN.md §3 UNIT, CODEC; §4 C16"),
+ "C15": dict(tech="static analysis: write-target provenance (W) restricted to the array/higher-order/aggregate built-ins, traversal-shape rule (COVER), interface-keyed map / printed-identity rule (HASH), FIN on the aggregates",
+   text="The array, higher-order and aggregate built-ins build their results in memory of their own (no append into an argument's spare capacity, no in-place reversal), traverse the whole container in order (start at the first member, step one, bounded by the same container's length; reviewed exceptions for $reduce and $zip), $distinct's identity test cannot panic or conflate values by printed form, and the aggregates cannot return a non-finite number. Fold direction, permutation and the other definitional clauses as values are not decided.",
+   ref="DESIGN.md §3 HASH, FIN; §4 C15, W, COVER"),
+ "C16": dict(tech="static analysis: unit typing (rune-count vs byte-offset) of integers in the position arithmetic (UNIT) and codec pairing (CODEC) + W restricted to the string built-ins",
+   text="Code-point vs byte indexing cannot be mixed in Substring/Pad/positionOfNthRune; encoder/decoder pairs use the same codec; $length is a code-point count. The string laws as equalities are not decided. A purity clause (write-target provenance W restricted to the property's functions) excludes caches and other state between calls.",
+   ref="DESIGN.md §3 UNIT, CODEC; §4 C16, W"),
  "C05": dict(tech="static analysis: interprocedural write-target provenance (effect analysis W) over the module call graph under Eval/EvalBytes/String, plus a who-may-call rule for clock and random sources (CLOCK)",
    text="Repeatability is decided as a frame condition over ALL programs, inputs and histories: no write reachable from Eval targets memory that existed before the call (the AST, package variables, the Expr, shared built-in callables). This is exactly what the once-per-Expr tests cannot observe. One genuine defect remains and is recorded as a known finding (the transform operator writes through patterns that reach outside its copy). Map-iteration-order effects are sanctioned by the property and not decided.",
    ref="DESIGN.md §3 W, CLOCK; §4 C05"),
@@ -46,18 +46,18 @@ CHECKS = {
  "C07": dict(tech="static analysis: write-target provenance (W) for every in-place mutation reachable from Eval, incl. reflect.Set*/SetMapIndex/Append, append, sort, copy; deep-freshness of the transform's pattern context",
    text="Input immutability as a frame condition for all programs and inputs. Obligation (a) of the transform (pattern evaluated against a deep copy) holds; obligation (b) (mutations stay inside the copy) does not and is the recorded known finding with its failing input. That the transform result equals the specified copy is not decided.",
    ref="DESIGN.md §3 W; §4 C07"),
- "C08": dict(tech="static analysis: error-provenance dataflow in jparse (ERR), abstract interpretation of the lexer over a finite cursor/width-typestate/first-rune domain (LEX), loop-variant classification and recursion inventory under Compile (LOOP/REC), registration-vs-switch exhaustiveness and explicit-panic inventory (TAB/PANIC), MustCompile/Compile/Parse shape rules",
-   text="The panic and hang classes of Compile that are visible in the shape of the code, for every input string: only *jparse.Error values with declared types leave the parser, the lexer never rewinds by a stale width and never returns an empty non-EOF token (for every first rune), every loop under Compile consumes a token/rune per cycle or has a counted/range variant, the 'unexpected ...' panics are unreachable. Runtime index/slice panics (e.g. the signature parser on an unmatched bracket) and stack depth are NOT decided, and the level note says so.",
-   ref="DESIGN.md §3 ERR, LEX, LOOP, TAB; §4 C08"),
- "C09": dict(tech="static analysis: NF dataflow over all of reach(Eval), dispatch exhaustiveness (TAB), explicit-panic inventory, loop-variant classification and recursion inventory (LOOP/REC), dominating guards (GUARD), interface-keyed map rule (HASH)",
-   text="The crash and hang classes that are visible in the shape of the code, decided for every program and input over the module call graph under Eval: unresolved reflect accessors, missing dispatch cases, loops without a variant, unguarded integer division / radix / repeat count, unhashable map keys. The remaining panic classes (type assertions, Set on zero Values, nil interfaces, stack depth) are not decided and are listed as such.",
-   ref="DESIGN.md §3 NF, TAB, LOOP, GUARD, HASH; §4 C09"),
- "C18": dict(tech="static analysis: loop-variant classification incl. positive multiplicative scaling (LOOP class M), FIN on the number built-ins, radix/repeat guards (GUARD)",
-   text="Termination of every loop under the number formatting functions (the clause behind the $formatNumber hang), finiteness of $power/$sqrt/$round results, and the exact [2,36] radix guard. Rounding, shortest form and picture rendering are value-level and not decided.",
-   ref="DESIGN.md §3 LOOP, FIN, GUARD; §4 C18"),
- "C19": dict(tech="static analysis: table exhaustiveness (TAB), clock-source who-may-call rule and single-instant dataflow (CLOCK), API reachability (GUARD-API), dominating guards (GUARD)",
-   text="All 17 date components are dispatched and have defaults; one clock reading per Eval shared by $now/$millis; no 64-bit-nanosecond API on the $toMillis path; no unguarded integer division under $fromMillis. Calendar field values and the inverse law are not decided.",
-   ref="DESIGN.md §3 TAB, CLOCK, GUARD; §4 C19"),
+ "C08": dict(tech="static analysis: error-provenance dataflow in jparse (ERR), abstract interpretation of the lexer over a finite cursor/width-typestate/first-rune domain (LEX), loop-variant classification and recursion inventory under Compile (LOOP/REC), registration-vs-switch exhaustiveness and explicit-panic inventory (TAB/PANIC), MustCompile/Compile/Parse shape rules; native index/slice bounds (BND: the Go compiler's prove pass asked via -d=ssa/check_bce on the current tree, then a difference-constraint prover, then reviewed one-site exceptions); unchecked type assertions (TA)",
+   text="The panic and hang classes of Compile that are visible in the shape of the code, for every input string: only *jparse.Error values with declared types leave the parser, the lexer never rewinds by a stale width and never returns an empty non-EOF token (for every first rune), every loop under Compile consumes a token/rune per cycle or has a counted/range variant, the 'unexpected ...' panics are unreachable. Runtime index/slice panics (e.g. the signature parser on an unmatched bracket) and stack depth are NOT decided, and the level note says so. BND/TA: no index, slice or type-assertion panic under Compile outside the reviewed invariants.",
+   ref="DESIGN.md §3 ERR, LEX, LOOP, TAB; §4 C08, BND, TA"),
+ "C09": dict(tech="static analysis: NF dataflow over all of reach(Eval), dispatch exhaustiveness (TAB), explicit-panic inventory, loop-variant classification and recursion inventory (LOOP/REC), dominating guards (GUARD), interface-keyed map rule (HASH); reflect.Value.Index bounds (IDX); native index/slice bounds (BND: compiler prove pass via -d=ssa/check_bce + difference-constraint prover + reviewed one-site exceptions); unchecked type assertions (TA); read-only struct-field values (RO); nil reflect.Type (NILTYPE); reflective stores that could make a value cyclic (ACYC)",
+   text="The crash and hang classes that are visible in the shape of the code, decided for every program and input over the module call graph under Eval: unresolved reflect accessors, missing dispatch cases, loops without a variant, unguarded integer division / radix / repeat count, unhashable map keys. The remaining panic classes (type assertions, Set on zero Values, nil interfaces, stack depth) are not decided and are listed as such. Added classes: index/slice bounds (IDX, BND), unchecked type assertions (TA), values of unexported struct fields used as data (RO), methods on reflect.TypeOf(nil) (NILTYPE), and cycle creation through reflection (ACYC; the transform's update store is a known finding: `$count(($ ~> |$|{\"self\":$}|).**)` does not return).",
+   ref="DESIGN.md §3 NF, TAB, LOOP, GUARD, HASH; §4 C09, IDX, BND, TA, RO, NILTYPE, ACYC"),
+ "C18": dict(tech="static analysis: loop-variant classification incl. positive multiplicative scaling (LOOP class M), FIN on the number built-ins, radix/repeat guards (GUARD) + W restricted to the number built-ins",
+   text="Termination of every loop under the number formatting functions (the clause behind the $formatNumber hang), finiteness of $power/$sqrt/$round results, and the exact [2,36] radix guard. Rounding, shortest form and picture rendering are value-level and not decided. A purity clause (write-target provenance W restricted to the property's functions) excludes caches and other state between calls.",
+   ref="DESIGN.md §3 LOOP, FIN, GUARD; §4 C18, W"),
+ "C19": dict(tech="static analysis: table exhaustiveness (TAB), clock-source who-may-call rule and single-instant dataflow (CLOCK), API reachability (GUARD-API), dominating guards (GUARD) + W restricted to $fromMillis/$toMillis and the picture machinery",
+   text="All 17 date components are dispatched and have defaults; one clock reading per Eval shared by $now/$millis; no 64-bit-nanosecond API on the $toMillis path; no unguarded integer division under $fromMillis. Calendar field values and the inverse law are not decided. A purity clause (write-target provenance W restricted to the property's functions) excludes caches and other state between calls.",
+   ref="DESIGN.md §3 TAB, CLOCK, GUARD; §4 C19, W"),
  "C20": dict(tech="static analysis: must-pass-through (dominance) of validation before registry stores (REG), environment assembly order, lock discipline and no-escape of the global registry (LOCK), W under the two registration roots",
    text="Registration-time validation and registry visibility for all registration histories: entries are validated before they are stored, an Expr holds a per-key copy of the global registry taken under the lock at Compile time, method-level registration writes only the receiver's registry. The argument-conversion relation is value-level and not decided.",
    ref="DESIGN.md §3 REG, LOCK, W; §4 C20"),
